@@ -151,10 +151,22 @@ class NPe(Stub):
         return m
 
     @staticmethod
-    def where(m):
+    def where(m, *ab):
         if not isinstance(m, Term):
             raise Unsupported("np.where of a non-symbolic mask")
-        return (m,)
+        if not ab:
+            return (m,)
+        if len(ab) != 2:
+            raise Unsupported("np.where with two arguments")
+        a, b = ab
+        # np.where(mask, values, zeros) is the zero array with values[mask] stored at mask
+        if isinstance(b, ZArr) or (isinstance(b, (int, float)) and not isinstance(b, bool) and b == 0):
+            if not isinstance(a, Term):
+                raise Unsupported("np.where(mask, <non-symbolic values>, zeros)")
+            z = ZArr(b.like if isinstance(b, ZArr) else a)
+            z.stores = (list(b.stores) if isinstance(b, ZArr) else []) + [(m.key(), Tok("take", a, m).key())]
+            return z
+        raise Unsupported("np.where(mask, a, b) with b other than zeros")
 
     @staticmethod
     def flatnonzero(m):
